@@ -8,10 +8,10 @@ L = os.path.join(REPO, "libs", "pika")
 DRIVERS = os.path.join(core.VERIF, "drivers")
 
 
-def facts(rep, tu, sels, recs=(), extra=()):
+def facts(rep, tu, sels, recs=(), extra=(), calls=()):
     if not os.path.exists(tu):
         raise AnalysisBroken("translation unit missing: %s" % tu)
-    raw = core.extract(tu, list(sels), list(recs), list(extra))
+    raw = core.extract(tu, list(sels), list(recs), list(extra), calls=list(calls))
     rep.tus.add(tu + (" [" + " ".join(extra) + "]" if extra else ""))
     return Facts(raw)
 
@@ -58,3 +58,40 @@ def local_init(fn, name):
     if len(ds) == 1:
         return ds[0].get("init")
     return None
+
+
+def who_references(rep, callee_re, ident, subdir="libs/pika"):
+    """Who-may-call query over the whole library: every function (pattern or instantiation) defined under
+    /repo/<subdir> whose body references a function whose qualified name matches callee_re.
+    Candidate files are pre-selected by the identifier's spelling (a reference cannot be written without it;
+    token pasting is not used for it), then decided on the resolved AST: each .cpp that spells it is analysed as
+    its own TU, all headers that spell it are included into one generated TU.  Returns a list of Facts."""
+    base = os.path.join(core.REPO, subdir)
+    cpps, hdrs = [], []
+    rx = re.compile(r"\b%s\b" % re.escape(ident))
+    for dp, dn, fns in os.walk(base):
+        if "/tests" in dp or "/examples" in dp:
+            continue
+        for fn_ in fns:
+            if not fn_.endswith((".cpp", ".hpp", ".ipp", ".h")):
+                continue
+            p = os.path.join(dp, fn_)
+            try:
+                txt = open(p, errors="replace").read()
+            except OSError:
+                continue
+            if rx.search(txt):
+                (cpps if fn_.endswith(".cpp") else hdrs).append(p)
+    out = []
+    for tu in sorted(cpps):
+        out.append(facts(rep, tu, [], calls=[callee_re]))
+    hdrs = [h for h in sorted(hdrs) if "/include/" in h]
+    if hdrs:
+        os.makedirs(core.CACHE, exist_ok=True)
+        body = "".join('#include <%s>\n' % h.split("/include/", 1)[1] for h in hdrs)
+        drv = os.path.join(core.CACHE, "who_%s.cpp" % core._sha(body)[:12])
+        if not os.path.exists(drv) or open(drv).read() != body:
+            with open(drv, "w") as f:
+                f.write(body)
+        out.append(facts(rep, drv, [], calls=[callee_re]))
+    return out, cpps, hdrs
